@@ -410,7 +410,7 @@ def mutate_bytes(g, buf):
         elif m < 0.9:
             b += [r.randrange(256) for _ in range(r.choice([1, 2, 3, 7, 20]))]
         else:
-            b[0:2] = b16(r.choice([5, 7, 9, 10, 9, 10, 0, 1, 8, 11, 65535]))
+            b[0:2] = b16(r.choice([5, 7, 9, 10, 9, 10, 0, 1, 8, 11, 65535, 73, 74, 521, 266]))
     return b
 
 
@@ -561,8 +561,11 @@ def rounds_session(g):
     ex9, ex10 = Exporter(g, "v9"), Exporter(g, "ipfix")
     hist = packet_sequence(g, r.choice([0, 2, 4]), ex9, ex10)
     pks = packet_sequence(g, r.choice([1, 2, 3, 5]), ex9, ex10)
-    extra = r.choice([[], [1], [8], [0, 65535]])
+    # extra numbers, some congruent to a supported version modulo 64 / 256 (73 = 9 + 64, 266 = 10 + 256, ...)
+    extra = r.choice([[], [1], [8], [0, 65535], [73], [74, 69], [266, 1285], [521]])
     S = sorted(set(r.sample([5, 7, 9, 10], r.randrange(0, 5)) + extra))
+    if extra and r.random() < 0.5:
+        S = sorted(set(S) - {9, 10} | set(extra))      # exercise "extra allowed, its look-alike supported version not"
     if r.random() < 0.3:
         pks.insert(r.randrange(len(pks) + 1), (extra[0] if extra else 3, b16(extra[0] if extra else 3) + g.rbytes(r.choice([2, 10, 30]))))
     everything = sorted(set([5, 7, 9, 10] + extra + [3]))
@@ -660,6 +663,12 @@ def scale_sessions(g, tier):
     sess(t1, g.ix_msg([g.set_(256, [1])] * ns))
     sess(v1, b16(9) + b16(ns) + [0] * 16 + g.set_(256, [1]) * ns)
     sess(b16(9) + b16(16000) + [0] * 16 + [0, 0, 0, 4] * 16000)
+    # 8b. V7 packed; a template whose field lengths sum to just over 65535 (wrap-around of the record size)
+    sess((b16(7) + b16(0) + [0] * 20) * 2730)
+    wf = 2000
+    wrap = b16(256) + b16(wf) + b16(1) + b16(65537 - 4 * (wf - 1)) + [x for _ in range(wf - 1) for x in b16(2) + b16(4)]
+    sess(g.v9_hdr(1) + g.set_(0, wrap), g.v9_hdr(1) + g.set_(256, [5] * 28000))
+    sess(g.ix_msg([g.set_(2, wrap)]), g.ix_msg([g.set_(256, [5] * 28000)]))
     # 9. a large cache, then a buffer packed with small template flowsets / sets (cost must not be cache x sets)
     nt = 1200 if tier == "quick" else 1500
     many_ot = [x for i in range(nt) for x in b16(2000 + i) + b16(4) + b16(4) + b16(1) + b16(2) + b16(2) + b16(2)]
@@ -733,6 +742,27 @@ def many_templates_session(g, n=1100, proto="v9"):
             bufs.append(g.v9_hdr(1) + g.set_(t, g.rbytes(8)))
         else:
             bufs.append(g.ix_msg([g.set_(t, g.rbytes(8))]))
+    for p in ("A", "B"):
+        for b in bufs:
+            ops.append(call(p, b))
+    ops.append({"op": "round", "kind": "twins", "a": "A", "b": "B", "c": ""})
+    return ops
+
+
+def dup_templates_session(g):
+    """one template flowset / set that defines the same id more than once among several ids, fed to twin parsers:
+    the last definition wins, the reported order is the sent order, and two parsers agree (C06, C16)"""
+    r = g.r
+    ops = ops_reset(("A", "B"))
+    ids = [256 + i for i in range(8)]
+    order = ids + [r.choice(ids), r.choice(ids)]
+    r.shuffle(order)
+    recs = []
+    for k, t in enumerate(order):
+        recs += b16(t) + b16(2) + b16(1) + b16(r.choice([1, 2, 4])) + b16(2 + k % 5) + b16(4)
+    bufs = [g.v9_hdr(1) + g.set_(0, recs)]
+    for t in ids[:3]:
+        bufs.append(g.v9_hdr(1) + g.set_(t, g.rbytes(24)))
     for p in ("A", "B"):
         for b in bufs:
             ops.append(call(p, b))
